@@ -31,9 +31,9 @@ ASSUMPTIONS = ["a crash is os._exit at the failpoint (no Python-level cleanup ru
                "bounded recovery: the first call after faults stop may recompute, the third must be served"]
 TIMEOUT = 1800
 WORKERS = {"quick": 16, "thorough": 16}
-SCENARIOS_QUICK = ["first", "same_bytes", "override", "exception", "big"]
+SCENARIOS_QUICK = ["first", "same_bytes", "override", "exception", "big", "big_small_cache"]
 SCENARIOS_ALL = ["first", "same_bytes", "after_forget", "override", "none_override", "partition", "metadata_path",
-                 "memory_cache", "exception", "big", "big_same_bytes"]
+                 "memory_cache", "exception", "big", "big_same_bytes", "big_small_cache"]
 VARIANTS = ["crash-before", "crash-mid", "error", "error-write", "fsize"]
 BIG = 300 * 1024
 
@@ -83,7 +83,7 @@ def install(root, scenario):
     from vf import ffuncs
 
     meta = os.path.join(root, "meta") if scenario == "metadata_path" else None
-    cache = 16 if scenario == "memory_cache" else None
+    cache = 16 if scenario == "memory_cache" else (4 * env.KIB if scenario == "big_small_cache" else None)  # (large result, tiny cache)
     st = env.fs_backend(os.path.join(root, "data"), cache_mb=cache, metadata_path=meta)
     env.set_env(os.path.join(root, "env"), default_storage=st)
     ffuncs.TABLE["s"] = table(scenario)
